@@ -168,7 +168,7 @@ class RecurrenceNetwork(RecurrencePlot, Network):
         #  Set diagonal of R to zero to avoid self-loops in the recurrence
         #  network
         A = self.R.copy()
-        A.flat[::self.N+1] = 0
+        np.fill_diagonal(A, 0)
 
         #  Create a Network object interpreting the recurrence matrix as the
         #  graph adjacency matrix. Recurrence networks are undirected by
@@ -190,7 +190,7 @@ class RecurrenceNetwork(RecurrencePlot, Network):
         #  Set diagonal of R to zero to avoid self-loops in the recurrence
         #  network
         A = self.R.copy()
-        A.flat[::self.N+1] = 0
+        np.fill_diagonal(A, 0)
 
         #  Create a Network object interpreting the recurrence matrix as the
         #  graph adjacency matrix. Recurrence networks are undirected by
@@ -210,7 +210,7 @@ class RecurrenceNetwork(RecurrencePlot, Network):
         #  Set diagonal of R to zero to avoid self-loops in the recurrence
         #  network
         A = self.R.copy()
-        A.flat[::self.N+1] = 0
+        np.fill_diagonal(A, 0)
 
         #  Create a Network object interpreting the recurrence matrix as the
         #  graph adjacency matrix. Recurrence networks are undirected by
@@ -237,7 +237,7 @@ class RecurrenceNetwork(RecurrencePlot, Network):
         #  graph adjacency matrix. Set diagonal of R to zero to avoid
         #  self-loops in the recurrence network
         A = self.R.copy()
-        A.flat[::self.N+1] = 0
+        np.fill_diagonal(A, 0)
 
         #  A recurrence network with fixed local recurrence rate (Eckmann
         #  definition of a recurrence plot) is directed by definition.
@@ -271,7 +271,7 @@ class RecurrenceNetwork(RecurrencePlot, Network):
         #  graph adjacency matrix. Set diagonal of R to zero to avoid
         #  self-loops in the recurrence network
         A = self.R.copy()
-        A.flat[::self.N+1] = 0
+        np.fill_diagonal(A, 0)
 
         #  A recurrence network with fixed local recurrence rate (Eckmann
         #  definition of a recurrence plot) is directed by definition.
